@@ -80,6 +80,15 @@ UNIT = {
         {'kind': 'fn', 'src': X, 'path': 'impl FeelContext::fn get_entry', 'key': 'itemdef::FeelContext::get_entry',
          'props': P, 'auto_props': A, 'loops': 0, 'ret': 'r', 'body_prefix': PRE,
          'ensures': [('post', 'r is Some == self.0@.contains_key(*name)'), ('value', 'r is Some ==> *r->Some_0 == self.0@[*name]')]},
+        # part of the context / value API that the bodies under contract do not use today; kept so that a changed body that does still extracts
+        {'kind': 'fn', 'src': X, 'path': 'impl FeelContext::fn len', 'key': 'itemdef::FeelContext::len', 'props': P, 'auto_props': A, 'loops': 0, 'ret': 'r', 'body_prefix': PRE,
+         'ensures': [('number_of_entries', 'r == self.0@.len()')]},
+        {'kind': 'fn', 'src': X, 'path': 'impl FeelContext::fn is_empty', 'key': 'itemdef::FeelContext::is_empty', 'props': P, 'auto_props': A, 'loops': 0, 'ret': 'r', 'body_prefix': PRE,
+         'ensures': [('no_entries', 'r == (self.0@.len() == 0)')]},
+        {'kind': 'fn', 'src': X, 'path': 'impl FeelContext::fn contains_entry', 'key': 'itemdef::FeelContext::contains_entry', 'props': P, 'auto_props': A, 'loops': 0, 'ret': 'r', 'body_prefix': PRE,
+         'ensures': [('post', 'r == self.0@.contains_key(*name)')]},
+        {'kind': 'fn', 'src': V, 'path': 'impl Value::fn is_null', 'key': 'itemdef::Value::is_null', 'props': P, 'auto_props': A, 'ret': 'r', 'loops': 0,
+         'ensures': [('null_test', 'r == (self is Null)')]},
         {'kind': 'fn', 'src': ID, 'path': 'fn check_allowed_values', 'key': 'itemdef::check_allowed_values', 'props': P, 'auto_props': A, 'loops': 0, 'ret': 'r',
          'sig_rewrite': [(r'^(\s*)fn ', r'\1pub fn ')],
          'rewrites': [R3, ('RX', 'R11', r'let scope = Scope::default\(\);\s*scope\.set_entry\(&"\?"\.into\(\), value\.clone\(\)\);', 'let scope = scope_set_entry(scope_new_default(), &name_from_str("?"), value.clone());', 1),
